@@ -240,6 +240,66 @@ static void op_idx(Cur &c, Out &o)
     o.kv("size", std::to_string(t.size()));
 }
 
+// `idxr <kind> R C T R2 C2 T2` — a tensor of one shape resized to another (multi-step use of one
+// object): every in-range element written through the accessor, then located in get_data()
+template <class TT, class Acc>
+static void resized_positions(TT &t, size_t R, size_t C, size_t T, Acc acc, Out &o)
+{
+    std::vector<size_t> pos;
+    double code = 1;
+    std::vector<std::vector<double>> codes;
+    for (size_t i = 0; i < R; i++)
+        for (size_t j = 0; j < C; j++)
+            for (size_t a = 0; a < T; a++)
+                acc(t, i, j, a) = code++;
+    code = 1;
+    const auto &d = t.get_data();
+    for (size_t i = 0; i < R; i++)
+        for (size_t j = 0; j < C; j++)
+            for (size_t a = 0; a < T; a++)
+            {
+                size_t p = 0;
+                while (p < d.size() && d[p] != code)
+                    p++;
+                pos.push_back(p);
+                code++;
+            }
+    o.list("pos", pos);
+    o.kv("dims", std::to_string(std::get<0>(t.dims())) + "," + std::to_string(std::get<1>(t.dims())) + "," +
+                     std::to_string(std::get<2>(t.dims())));
+    o.kv("size", std::to_string(t.size()));
+}
+
+static void op_idxr(Cur &c, Out &o)
+{
+    std::string kind = c.tok();
+    size_t R = c.nat(), C = c.nat(), T = c.nat(), R2 = c.nat(), C2 = c.nat(), T2 = c.nat();
+    if (kind == "t")
+    {
+        tensor::Tensor<double> t(R, C, T);
+        t.resize(R2, C2, T2);
+        resized_positions(t, R2, C2, T2, [](auto &x, size_t i, size_t j, size_t a) -> double & { return x(i, j, a); }, o);
+    }
+    else if (kind == "m")
+    {
+        Matrix<double> t(R, C);
+        t.resize(R2, C2);
+        resized_positions(t, R2, C2, 1, [](auto &x, size_t i, size_t j, size_t) -> double & { return x(i, j); }, o);
+    }
+    else if (kind == "s")
+    {
+        SymmetricTensor<double> t(R, T);
+        t.resize(R2, T2);
+        resized_positions(t, R2, R2, T2, [](auto &x, size_t i, size_t j, size_t a) -> double & { return x(i, j, a); }, o);
+    }
+    else
+    {
+        DiagonalTensor<double> t(R, T);
+        t.resize(R2, T2);
+        resized_positions(t, R2, 1, T2, [](auto &x, size_t i, size_t, size_t a) -> double & { return x(i, a); }, o);
+    }
+}
+
 // ------------------------------------------------------------------------------ net
 
 template <class V, class W, class D>
@@ -828,6 +888,49 @@ static void op_wmem(Cur &c, Out &o)
     dump_file_tokens(p, o, true);
 }
 
+// `winfo <r> <seed> <n> (iters reason L2)*` — write_info_file; likelihood values come back as doubles
+static void op_winfo(Cur &c, Out &o)
+{
+    size_t r = c.nat();
+    long long seed = c.integer();
+    size_t n = c.nat();
+    utils::Report rep{};
+    rep.nof_realizations = r;
+    rep.duration = 0;
+    rep.seed = (std::time_t)seed;
+    std::vector<std::string> reasons(n);
+    for (size_t i = 0; i < n; i++)
+    {
+        rep.vec_iter.push_back(c.nat());
+        reasons[i] = c.tok();
+        rep.vec_L2.push_back(c.flt());
+    }
+    for (size_t i = 0; i < n; i++)
+        rep.vec_term_reason.push_back(reasons[i].c_str());
+    std::string p = g_scratch + "/run_info.dat";
+    write_info_file(p, rep);
+    std::ifstream in(p);
+    std::string line;
+    size_t i = 0;
+    while (std::getline(in, line))
+    {
+        std::istringstream is(line);
+        std::string t;
+        std::vector<std::string> toks;
+        while (is >> t)
+            toks.push_back(t);
+        bool header = !toks.empty() && toks[0] == "#";
+        if (header && toks.size() >= 3 && toks[1] == "Maximum")
+            toks.back() = hx(std::strtod(toks.back().c_str(), nullptr));
+        if (header && toks.size() >= 3 && toks[1] == "Duration")
+            toks.back() = "-";
+        if (!header && toks.size() == 4)
+            toks[3] = hx(std::strtod(toks[3].c_str(), nullptr));
+        o.list("l" + std::to_string(i), toks);
+        i++;
+    }
+}
+
 // ------------------------------------------------------------------------------ main
 
 int main(int argc, char **argv)
@@ -859,6 +962,8 @@ int main(int argc, char **argv)
         {
             if (op == "idx")
                 op_idx(c, o);
+            else if (op == "idxr")
+                op_idxr(c, o);
             else if (op == "net")
                 op_net(c, o);
             else if (op == "sweep")
@@ -877,6 +982,8 @@ int main(int argc, char **argv)
                 op_waff(c, o);
             else if (op == "wmem")
                 op_wmem(c, o);
+            else if (op == "winfo")
+                op_winfo(c, o);
             else
                 throw std::logic_error("unknown op " + op);
         }
